@@ -50,6 +50,11 @@ func zzSPut(name string, lines []string) string {
 	return p
 }
 
+func zzSRemove() {
+	os.RemoveAll(zzSDir)
+	zzSDir = ""
+}
+
 // zzDig: a text of decimal digits (symbolic), with a concrete '.' after `before` digits when before < n
 func zzDig(name string, idx, n, before int) string {
 	var bs []byte
